@@ -234,7 +234,7 @@ func genPage(g *prng.R, box string) M {
 func init() {
 	checks["c20"] = func(id string) int {
 		r := newRun(id, "exploration")
-		r.Rule = "GetInbox / GetOutbox with seeded random ordered-collection pages of 0..30 items (IRIs or embedded values, duplicates at arbitrary positions) and the ActivityStreams handler with stored values of every vocabulary type carrying bto/bcc through 'object', a Tombstone, and a missing value; actors from every constructor, handlers for the http scheme, ResponseWriters with headers already set; three GETs in a row on one entry point with the application's answer and clock changed in between; pairs of GETs (any two of the three entry points) in which the first is held inside its first Header / WriteHeader / Write call while the second is served completely on another goroutine, both judged; clock instants over years 1..9999 and offsets -12..+14h; body, status, Content-Type, Date and Digest are compared with an independent model (own de-duplication, own IMF-fixdate formatter, own SHA-256 of the written bytes); non-trivial = a body was written and compared; distinct by scenario"
+		r.Rule = "GetInbox / GetOutbox with seeded random ordered-collection pages of 0..30 items (IRIs or embedded values, duplicates at arbitrary positions) and the ActivityStreams handler with stored values of every vocabulary type carrying bto/bcc through 'object', a Tombstone, and a missing value; actors from every constructor, handlers for the http scheme, ResponseWriters with headers already set; three GETs in a row on one entry point with the application's answer and clock changed in between; pairs of GETs (any two of the three entry points) in which the first is held inside its first Header / WriteHeader / Write call while the second is served completely on another goroutine, both judged; clock instants over years 1..9999 and offsets -12..+14h; body, status, Content-Type, Date and Digest are compared with an independent model (own de-duplication, own IMF-fixdate formatter, own SHA-256 of the written bytes); Links, Mentions and intransitive activities with bto / bcc nested at any depth, also inside arrays; non-trivial = a body was written and compared; distinct by scenario"
 		r.Assumptions = []string{"pages and stored values are in canonical lexical form so the model's expected body is the supplied JSON itself", "a scalar and a one-element list are the same serialised property value"}
 		O, err := onto.Load(onto.DefaultFiles(verdict.Repo()))
 		if err != nil {
